@@ -20,6 +20,8 @@ def run(repo: Repo, chk: Check):
     chk.rule("R06.e", "every lowering that wraps compiled statements into a 'jal L ... L: ... j ra' subroutine preserves ra around them", floor=1)
     chk.rule("R06.f", "ra is restored after the function's end label (early returns pass through the restore); in the push/pop "
                       "convention ra is pushed after the argument pops and the inserts are applied from the highest index down", floor=3)
+    chk.rule("R06.h", "a return omits the jump to the function's end label only when it is the last statement of the function body "
+                      "itself: the ra logic finds the exit points of a function by that jump and by the end label", floor=1)
     chk.rule("R06.g", "at a call site arguments are stored before the jal and the result is read after it; a return stores the "
                       "result before jumping to the end label", floor=3)
     chk.guarded(rule_convention_roles, repo, chk, "R06.a")
@@ -28,6 +30,7 @@ def run(repo: Repo, chk: Check):
     chk.guarded(r06cdf, repo, chk)
     chk.guarded(r06e, repo, chk)
     chk.guarded(r06g, repo, chk)
+    chk.guarded(r06h, repo, chk)
 
 
 def _addr(site):
@@ -41,7 +44,7 @@ def _addr(site):
         return None
 
 
-def r06a(repo, chk):
+def r06a(repo, chk, R="R06.a"):
     roles = convention_roles(repo)
     g = repo.mod("generate_code")
     # fixed slots
@@ -65,13 +68,13 @@ def r06a(repo, chk):
         co, k = linform
         return ({("<i>" if a == var else a): v for a, v in co.items()}, k)
     ok = a1 is not None and a2 is not None and i1 and i2 and a1[0] == a2[0] and rename(a1[1], i1) == rename(a2[1], i2) and rename(a1[1], i1)[0].get("<i>") in (1, -1)
-    chk.judge("R06.a", "fixed slots: i-th argument slot (caller put == callee get)", bool(ok),
+    chk.judge(R, "fixed slots: i-th argument slot (caller put == callee get)", bool(ok),
               f"caller writes argument i to {norm(ca[0].input_exprs[1]) if len(ca[0].input_exprs) > 1 else '?'} on {a1[0] if a1 else '?'}, "
               f"callee reads it from {norm(ce[0].input_exprs[1]) if len(ce[0].input_exprs) > 1 else '?'} on {a2[0] if a2 else '?'}",
               {"caller": norm(ca[0].call), "callee": norm(ce[0].call)}, ce[0].where())
     r1, r2 = _addr(er[0]), _addr(cr[0])
     okr = r1 is not None and r2 is not None and r1 == r2
-    chk.judge("R06.a", "fixed slots: result slot (callee put == caller get)", bool(okr),
+    chk.judge(R, "fixed slots: result slot (callee put == caller get)", bool(okr),
               f"callee writes the result to {norm(er[0].input_exprs[1])}, caller reads {norm(cr[0].input_exprs[1])}", None, cr[0].where())
     if ok and okr:
         co, k = rename(a1[1], i1)
@@ -80,7 +83,7 @@ def r06a(repo, chk):
         same_atoms = {a: v for a, v in co.items() if a != "<i>"} == rk[0]
         slope = co.get("<i>")
         distinct = same_atoms and ((slope < 0 and k < rk[1]) or (slope > 0 and k > rk[1]))
-        chk.judge("R06.a", "fixed slots: no argument slot coincides with the result slot", bool(distinct),
+        chk.judge(R, "fixed slots: no argument slot coincides with the result slot", bool(distinct),
                   f"argument slot {co}+{k} can equal the result slot {rk}", None, ca[0].where())
     # iteration order
     cfgc, rdc = fn_ctx(ca[0].fn)
@@ -106,9 +109,9 @@ def r06a(repo, chk):
         return ("plain", txt)
     s1 = iter_shape(it1, rdc, cfgc, lp1.iter) if it1 is not None else ("?", "")
     s2 = iter_shape(it2, rde, cfge, lp2.iter) if it2 is not None else ("?", "")
-    chk.judge("R06.a", "argument order: caller enumerates the call's arguments in source order", s1[0] == "plain" and norm(it1).endswith(".args"),
+    chk.judge(R, "argument order: caller enumerates the call's arguments in source order", s1[0] == "plain" and norm(it1).endswith(".args"),
               f"caller iterates {s1[1]}", {"iter": s1[1]}, ca[0].where())
-    chk.judge("R06.a", "argument order: callee reads declared order (fixed slots) / reversed order (push/pop)", s2[0] == "flag",
+    chk.judge(R, "argument order: callee reads declared order (fixed slots) / reversed order (push/pop)", s2[0] == "flag",
               f"callee iterates its parameters as: {s2[1]}; expected reversed exactly under use_push_pop_functions (last pushed is popped first)",
               {"iter": s2[1]}, ce[0].where())
     # push/pop sites sit in the same loops as the fixed-slot ones
@@ -116,15 +119,47 @@ def r06a(repo, chk):
         f_site, p_site = roles[(role, False)], roles[(role, True)]
         if f_site and p_site:
             same = loop_index(f_site[0])[2] is loop_index(p_site[0])[2] and loop_index(f_site[0])[2] is not None
-            chk.judge("R06.a", f"{role}: both conventions handle every argument (same loop)", same,
+            chk.judge(R, f"{role}: both conventions handle every argument (same loop)", same,
                       "the push/pop site and the fixed-slot site are not in the same loop over the arguments", None, p_site[0].where())
+    def _rejecting(fn_, t, p):
+        """The other branch of the if that produced guard (t, p) only raises: a compile error, not a skip."""
+        for node in ast.walk(fn_):
+            if isinstance(node, ast.If) and any(x is t for x in ast.walk(node.test)):
+                other = node.orelse if p else node.body
+                if other and isinstance(other[-1], ast.Raise):
+                    return True
+        return False
+
+    # push/pop: every pushed argument is popped — the pop site must not be skippable for individual parameters
+    for s_ in roles[("callee-arg", True)]:
+        cfgp, rdp = fn_ctx(s_.fn)
+        ids = live_ids(cfgp, s_.call)
+        lp = loop_index(s_)[2]
+        extra = []
+        for t, p in (guard_atoms(cfgp, ids[0]) if ids else []):
+            if lp is not None and any(x is t for x in ast.walk(lp)) and not norm(t).endswith("use_push_pop_functions") and not _rejecting(s_.fn, t, p):
+                extra.append(norm(t) + ("" if p else " is False"))
+        chk.judge(R, "push/pop: every declared parameter is popped (no per-parameter condition)", not extra,
+                  f"the pop of a parameter is skipped under {extra}: the caller still pushes every argument, so all later parameters read the wrong stack entries "
+                  f"and one entry leaks per call", {"conditions": extra}, s_.where())
+    for s_ in roles[("caller-arg", True)] + roles[("caller-arg", False)]:
+        cfgp, rdp = fn_ctx(s_.fn)
+        ids = live_ids(cfgp, s_.call)
+        lp = loop_index(s_)[2]
+        extra = []
+        for t, p in (guard_atoms(cfgp, ids[0]) if ids else []):
+            if lp is not None and any(x is t for x in ast.walk(lp)) and not norm(t).endswith("use_push_pop_functions") and "do_inline" not in norm(t) and "inline" not in norm(t) \
+                    and not _rejecting(s_.fn, t, p):
+                extra.append(norm(t) + ("" if p else " is False"))
+        chk.judge(R, f"caller: every argument is stored ({'push/pop' if s_ in roles[('caller-arg', True)] else 'fixed slots'})", not extra,
+                  f"storing an argument is skipped under {extra}", {"conditions": extra}, s_.where())
     # result partners in push/pop: callee pushes exactly the value, caller pops into the result symbol
     ep, cp_ = roles[("callee-result", True)], roles[("caller-result", True)]
     if ep and cp_:
         ok = len(ep[0].input_exprs) == 1 and cp_[0].has_output and len(cp_[0].input_exprs) == 0
         same_val = norm(ep[0].input_exprs[0]) == norm(er[0].input_exprs[-1]) if ep[0].input_exprs and er[0].input_exprs else False
         same_out = norm(cp_[0].output_expr) == norm(cr[0].output_expr) if cp_[0].has_output and cr[0].has_output else False
-        chk.judge("R06.a", "push/pop: result is pushed by the callee and popped by the caller into the same symbol as in the fixed-slot convention",
+        chk.judge(R, "push/pop: result is pushed by the callee and popped by the caller into the same symbol as in the fixed-slot convention",
                   ok and same_val and same_out, "push/pop result sites do not mirror the fixed-slot ones", None, cp_[0].where())
 
 
@@ -282,7 +317,7 @@ def r06e(repo, chk):
         chk.ok("R06.e", "generate_code:no subroutine-style lowering", None, vacuous=True)
 
 
-def r06g(repo, chk):
+def r06g(repo, chk, R="R06.g"):
     g = repo.mod("generate_code")
     roles = convention_roles(repo)
     hs = repo.handlers()
@@ -300,16 +335,41 @@ def r06g(repo, chk):
             while lp is not None and not isinstance(lp, ast.For):
                 lp = getattr(lp, "parent", None)
             lid = live_ids(cfg, lp.iter)[0] if lp is not None else None
-            chk.judge("R06.g", f"generate_code:{call_fn.qual}:arguments ({'push/pop' if conv else 'fixed slots'}) are stored before the jal",
+            chk.judge(R, f"generate_code:{call_fn.qual}:arguments ({'push/pop' if conv else 'fixed slots'}) are stored before the jal",
                       lid is not None and lid in dom.get(jid, set()) and s.section == "" and jal[0].section == "",
                       "the argument stores are not emitted before the jal in the same code section", None, s.where())
         for s in roles[("caller-result", conv)]:
-            chk.judge("R06.g", f"generate_code:{call_fn.qual}:result ({'push/pop' if conv else 'fixed slots'}) is read after the call",
+            chk.judge(R, f"generate_code:{call_fn.qual}:result ({'push/pop' if conv else 'fixed slots'}) is read after the call",
                       s.section == "end", f"the result is read in section {s.section!r}, expected the 'end' section (after the callee's code / the jal)", None, s.where())
     ret_fn = g.func(f"{GEN_CLASS}.{hs['Return']}")
     rsites = sorted([s for s in collect_sites(repo, ["generate_code"]) if s.fn is ret_fn and s.opcodes is not TOP], key=lambda s: s.call.lineno)
     jumps = [s for s in rsites if set(s.opcodes) == {"j"}]
     stores = [s for s in rsites if set(s.opcodes) <= {"put", "push", "move"}]
     ok = bool(jumps) and bool(stores) and all(st.call.lineno < j.call.lineno and st.section == j.section for st in stores for j in jumps)
-    chk.judge("R06.g", f"generate_code:{ret_fn.qual}:result is stored before the jump to the end label", ok,
+    chk.judge(R, f"generate_code:{ret_fn.qual}:result is stored before the jump to the end label", ok,
               "a return jumps to the function's end label before (or in another section than) storing its value", None, f"{g.path}:{ret_fn.lineno} in {ret_fn.qual}")
+
+
+def r06h(repo, chk):
+    g = repo.mod("generate_code")
+    hs = repo.handlers()
+    fn = g.func(f"{GEN_CLASS}.{hs['Return']}")
+    chk.saw("generate_code", fn.qual)
+    cfg, rd = fn_ctx(fn)
+    sites = [s for s in collect_sites(repo, ["generate_code"]) if s.fn is fn and s.opcodes is not TOP and set(s.opcodes) == {"j"}]
+    if not sites:
+        raise AnalysisError("handle_return: jump to the function's end label not found")
+    for s in sites:
+        ids = live_ids(cfg, s.call)
+        atoms = guard_atoms(cfg, ids[0]) if ids else []
+        ok = False
+        desc = [norm(t) + ("" if p else " is False") for t, p in atoms]
+        for t, p in atoms:
+            if isinstance(t, ast.Compare) and len(t.ops) == 1 and norm(t.comparators[0]).endswith(".body[-1]") and isinstance(t.left, ast.Name):
+                if (isinstance(t.ops[0], (ast.NotEq, ast.IsNot)) and p) or (isinstance(t.ops[0], (ast.Eq, ast.Is)) and not p):
+                    ok = True
+        only = len([1 for t, p in atoms if "inline" not in norm(t)]) <= 1
+        chk.judge("R06.h", "generate_code:handle_return:jump to the end label unless the return is the last statement of the body", ok and only,
+                  f"the jump to '<name>end' is emitted under {desc}: expected exactly 'node is not func_node.body[-1]'. A return elsewhere (end of an if-branch, "
+                  f"end of a loop body) that omits the jump is not an exit point for add_ra_instructions (pop ra is misplaced under push/pop) and inside a loop it "
+                  f"falls onto the back jump", {"guards": desc}, s.where())
